@@ -133,10 +133,25 @@ def validate_prepare_data(data, poly_trend, n_offsets):
                          "priors on constant offsets specified (i.e. "
                          "v0_offsets)")
 
+    # The reference epoch (of M0 and of the polynomial trend): if all sources
+    # declare the same one, that is the epoch of the merged data as well;
+    # otherwise (e.g. each source defaulting to its own first observation) the
+    # earliest observation of all
+    t_refs = [d.t_ref for d in data.values()]
+    if all(r is None for r in t_refs):
+        t_ref = False
+    elif all(
+        r is not None and abs(r.tcb.mjd - t_refs[0].tcb.mjd) < 1e-9
+        for r in t_refs
+    ):
+        t_ref = t_refs[0]
+    else:
+        t_ref = None
+
     # keep the merged data points in concatenation order, so that they stay
     # row-aligned with their survey labels in `ids`
     all_data = RVData(t=Time(t, format='mjd', scale='tcb'),
-                      rv=rv, rv_err=err, sort=False)
+                      rv=rv, rv_err=err, t_ref=t_ref, sort=False)
 
     trend_M = get_trend_design_matrix(all_data, ids, poly_trend)
 
